@@ -816,37 +816,63 @@ func c15() []*Ob {
 							info = p
 						}
 					}
-					for _, b := range fn.Blocks {
-						ret, ok := b.Instrs[len(b.Instrs)-1].(*ssa.Return)
+					// every path to a return reads the header, or has established info != nil and info.IndexOnDisk > 0
+					// (path-sensitive: the decision may be kept in a flag, `needHeader := info == nil || info.IndexOnDisk == 0`)
+					lhc := c.P.MustCall(lh)
+					isIndexOnDisk := func(v ssa.Value) bool {
+						l, ok := v.(*ssa.UnOp)
+						return ok && IsFieldAddr(l.X, "frac.Info", "IndexOnDisk")
+					}
+					bad, good := 0, 0
+					var badPos token.Pos
+					res := Simulate(fn.Blocks[0].Instrs[0], false, nil, func(st SimState, in ssa.Instruction) bool {
+						if cl, ok := in.(ssa.CallInstruction); ok && lhc(cl) {
+							st.Tag("header")
+						}
+						ret, ok := in.(*ssa.Return)
 						if !ok {
-							continue
+							return true
 						}
-						dom := false
-						for _, l := range CallsIn(fn, lh) {
-							if Dominates(l.(ssa.Instruction), ret) {
-								dom = true
+						if st.HasTag("header") {
+							good++
+							return false
+						}
+						nonNil := info != nil && st.Nilness(info) == -1
+						positive := false
+						for _, op := range []token.Token{token.GTR, token.NEQ, token.EQL, token.LEQ} {
+							op := op
+							if v, found := st.CondFact(func(c ssa.Value) bool {
+								bo, ok := c.(*ssa.BinOp)
+								if !ok || bo.Op != op || !isIndexOnDisk(bo.X) {
+									return false
+								}
+								k, isK := ConstInt(bo.Y)
+								return isK && k == 0
+							}); found {
+								switch op {
+								case token.GTR, token.NEQ:
+									positive = positive || v
+								case token.EQL, token.LEQ:
+									positive = positive || !v
+								}
 							}
 						}
-						if dom {
-							c.Site(ret.Pos(), "NewSealed: header is read from the index file")
-							continue
-						}
-						facts := FactsAt(b)
-						nonNil := info != nil && KnownNonNil(facts, info)
-						pos, found := BoolFact(facts, func(v ssa.Value) bool {
-							bo, ok := v.(*ssa.BinOp)
-							if !ok || bo.Op != token.GTR {
-								return false
-							}
-							l, ok := bo.X.(*ssa.UnOp)
-							k, isK := ConstInt(bo.Y)
-							return ok && isK && k == 0 && IsFieldAddr(l.X, "frac.Info", "IndexOnDisk")
-						})
-						if nonNil && found && pos {
-							c.Site(ret.Pos(), "NewSealed: fast path only with a cached info whose IndexOnDisk > 0")
+						if nonNil && positive {
+							good++
 						} else {
-							c.Violation("dom:NewSealed:fast-path", ret.Pos(), "NewSealed can skip reading the index header although the cached info is absent or has IndexOnDisk == 0")
+							bad++
+							badPos = ret.Pos()
 						}
+						return false
+					})
+					c.Count("paths_simulated", res.Paths)
+					switch {
+					case bad > 0:
+						c.Violation("dom:NewSealed:fast-path", badPos, "NewSealed can skip reading the index header although the cached info is absent or has IndexOnDisk == 0")
+					case good > 0:
+						c.Site(fn.Pos(), "NewSealed: on every path the header is read from the index file, or the cached info exists and has IndexOnDisk > 0 (%d paths)", good)
+					default:
+						c.Undecided("NewSealed:nopaths", fn.Pos(), "no return path of NewSealed could be simulated")
 					}
 				}
 			}},
